@@ -63,6 +63,15 @@ func argsFor(mt reflect.Type, skipRecv bool, partner geom.Geometry, variant int)
 	return args, true
 }
 
+type observable interface {
+	AsText() string
+	AsBinary() []byte
+	IsEmpty() bool
+	Envelope() geom.Envelope
+	DumpCoordinates() geom.Sequence
+	Summary() string
+}
+
 // callAllMethods invokes every exported method of v; returns the methods that panicked and how many were called.
 func callAllMethods(v interface{}, partners []geom.Geometry) (panics []string, called int) {
 	rv := reflect.ValueOf(v)
@@ -90,7 +99,18 @@ func callAllMethods(v interface{}, partners []geom.Geometry) (panics []string, c
 					}
 				}()
 				called++
-				rv.Method(i).Call(args)
+				outs := rv.Method(i).Call(args)
+				// whatever geometry a method returns is itself an ordinary geometry: it can be read back
+				for _, o := range outs {
+					if ob, ok := o.Interface().(observable); ok {
+						_ = ob.AsText()
+						_ = ob.AsBinary()
+						_ = ob.IsEmpty()
+						_ = ob.Envelope()
+						_ = ob.DumpCoordinates()
+						_ = ob.Summary()
+					}
+				}
 			}()
 			if m.Type.NumIn() == 1 {
 				break // no arguments: one call is enough
@@ -507,6 +527,31 @@ func histSteps(c Case) []Event {
 			}
 		}
 	}
+	// last step: every public method and function on the final value (empty members inserted at the recorded positions),
+	// in the coordinate type the case asks for; whatever they return is read back. The observation is unchanged by
+	// definition - only a panic makes this step a mismatch.
+	if len(steps) > 0 && steps[len(steps)-1]["panic"] == "" {
+		ct := ctypes[0]
+		if _, ok := c["ct"]; ok {
+			ct = ctypes[c.num("ct")%4]
+		}
+		g := build().ForceCoordinatesType(ct)
+		ev := Event{"act": "Sweep(" + ct.String() + "," + g.AsText() + ")", "obs": steps[0]["obs"], "names": obsNames, "panic": ""}
+		func() {
+			defer func() {
+				if r := recover(); r != nil {
+					ev["panic"] = fmt.Sprint(r)
+				}
+			}()
+			partners := emptyPartners()[:3]
+			p1, _ := callAllMethods(g, partners)
+			p2, _ := callAllMethods(concreteOf(g), partners)
+			if all := append(p1, p2...); len(all) > 0 {
+				ev["panic"] = all[0]
+			}
+		}()
+		steps = append(steps, ev)
+	}
 	return steps
 }
 
@@ -525,7 +570,7 @@ func emptyGen(r *rand.Rand, n int, tier string, emit func(Case)) {
 		for k, m := 0, 1+r.Intn(5); k < m; k++ {
 			ops = append(ops, []interface{}{r.Intn(3) / 2, r.Intn(8), r.Intn(9)})
 		}
-		c := Case{"kind": "hist", "w": g.AsText(), "other": l.any(6).AsText(), "ops": ops, "nest": []int{0, 0, 1, 2}[r.Intn(4)]}
+		c := Case{"kind": "hist", "w": g.AsText(), "other": l.any(6).AsText(), "ops": ops, "nest": []int{0, 0, 1, 2}[r.Intn(4)], "ct": r.Intn(4)}
 		if r.Intn(6) == 0 {
 			c["other"] = []string{"POINT EMPTY", "GEOMETRYCOLLECTION EMPTY", "GEOMETRYCOLLECTION(POLYGON EMPTY)", "LINESTRING EMPTY"}[r.Intn(4)]
 		}
